@@ -31,9 +31,10 @@
 (*              variables {t: values sw}, parameters {value: "2 * t"}      *)
 (* SweepMul     sweep over FloatMultiplyOperation, parameters {factor: t}  *)
 (* SweepSrcCtx  like SweepSrc with variables {t: from_context k1}          *)
-(* typing-only kinds (Factories.tla): PSrc FloatPayloadSource, PSrcInj     *)
-(* VInjectPayloadSource (injects "b"), PSink FloatPayloadSink, ProbeP      *)
-(* VScaleProbe (factor = 1), Touch VTouchOperation                         *)
+(* PSrc         FloatPayloadSource -> 456         PSink  FloatPayloadSink  *)
+(* PSrcInj      VInjectPayloadSource -> 9, injects b = 7 (collision fails) *)
+(* ProbeP       VScaleProbe: ctx[k1] := value * factor (factor = 1)        *)
+(* Touch        VTouchOperation: identity that logs its invocation         *)
 (***************************************************************************)
 EXTENDS Values
 
@@ -66,7 +67,7 @@ ParamNames(n) ==
 
 HasDefault(n, p) == \/ n.kind = "SrcDef" /\ p = "value"
                     \/ n.kind \in {"MulDef", "SliceMulDef", "ProbeP"} /\ p = "factor"
-Default(n, p)    == IF n.kind = "SrcDef" THEN Num(42) ELSE Num(2)
+Default(n, p)    == IF n.kind = "SrcDef" THEN Num(42) ELSE IF n.kind = "ProbeP" THEN Num(1) ELSE Num(2)
 
 \* generated classes whose _process_logic takes **kwargs accept any configuration key
 KwargsAllowed(n) == n.kind \in CtxKinds \cup SweepKinds
@@ -133,7 +134,12 @@ Apply(n, data, ctx, arg) ==
       [] n.kind = "Sq"   -> Ok(Float(data.v * data.v), ctx)
       [] n.kind = "Probe" -> Ok(data, Set(ctx, n.k1, Num(data.v)))
       [] n.kind = "SliceProbe" -> Ok(data, Set(ctx, n.k1, List(data.items)))
-      [] n.kind = "Sink" -> Ok(data, ctx)
+      [] n.kind \in {"Sink", "PSink", "Touch"} -> Ok(data, ctx)
+      [] n.kind = "PSrc" -> Ok(Float(456), ctx)
+      [] n.kind = "PSrcInj" ->      \* PayloadSourceKeyCollisionFails: injected keys must not exist yet
+            IF ctx["b"] # Absent THEN Bad("proc", data, ctx) ELSE Ok(Float(9), Set(ctx, "b", Num(7)))
+      [] n.kind = "ProbeP" ->
+            IF IsNum(arg["factor"]) THEN Ok(data, Set(ctx, n.k1, Num(data.v * arg["factor"].v))) ELSE Bad("proc", data, ctx)
       [] n.kind = "CtxW" -> Ok(Float(data.v + 1), Set(ctx, "w", Num(data.v)))
       [] n.kind = "CtxWBad" -> Bad("undeclared", data, ctx)
       [] n.kind = "Boom" -> Bad("proc", data, ctx)
